@@ -323,31 +323,108 @@ fn self_exe() -> PathBuf {
     std::env::current_exe().unwrap_or_else(|_| PathBuf::from("/verif/sim/target/release/simctl"))
 }
 
-pub fn spawn_worker(bin: &Path, spec: &WorkSpec) -> ChildEnd {
-    let out = Command::new(bin).arg("worker").arg(serde_json::to_string(spec).unwrap()).output();
-    match out {
-        Err(e) => ChildEnd::Harness(format!("cannot spawn {}: {}", bin.display(), e)),
-        Ok(o) => {
-            let stdout = String::from_utf8_lossy(&o.stdout);
-            if o.status.success() {
-                match stdout.lines().find_map(|l| l.strip_prefix("RESULT ")) {
-                    Some(j) => match serde_json::from_str::<WorkOut>(j) {
-                        Ok(w) => ChildEnd::Ok(w),
-                        Err(e) => ChildEnd::Harness(format!("worker output does not parse: {}", e)),
-                    },
-                    None => ChildEnd::Harness("worker printed no RESULT line".into()),
+/// `Command::output()` with a wall-clock cap: the child is killed when it exceeds it (its exit
+/// status then reports the signal).
+fn output_with_timeout(cmd: &mut Command, secs: u64) -> std::io::Result<std::process::Output> {
+    use std::io::Read;
+    use std::process::Stdio;
+    let mut child = cmd.stdout(Stdio::piped()).stderr(Stdio::piped()).spawn()?;
+    let mut so = child.stdout.take().unwrap();
+    let mut se = child.stderr.take().unwrap();
+    let t_out = std::thread::spawn(move || {
+        let mut b = Vec::new();
+        let _ = so.read_to_end(&mut b);
+        b
+    });
+    let t_err = std::thread::spawn(move || {
+        let mut b = Vec::new();
+        let _ = se.read_to_end(&mut b);
+        b
+    });
+    let deadline = std::time::Instant::now() + std::time::Duration::from_secs(secs);
+    let status = loop {
+        match child.try_wait()? {
+            Some(st) => break st,
+            None => {
+                if std::time::Instant::now() > deadline {
+                    let _ = child.kill();
+                    break child.wait()?;
                 }
-            } else if o.status.code() == Some(2) {
-                ChildEnd::Harness(String::from_utf8_lossy(&o.stderr).lines().last().unwrap_or("").to_string())
-            } else {
-                use std::os::unix::process::ExitStatusExt;
-                let how = match o.status.signal() {
-                    Some(s) => format!("signal {}", s),
-                    None => format!("exit status {:?}", o.status.code()),
-                };
-                ChildEnd::Crashed(how)
+                std::thread::sleep(std::time::Duration::from_millis(20));
             }
         }
+    };
+    Ok(std::process::Output { status, stdout: t_out.join().unwrap_or_default(), stderr: t_err.join().unwrap_or_default() })
+}
+
+/// Wall-clock cap for one worker process. The worker has its own watchdog (30 s without
+/// progress inside one run); this is the safety net behind it: whatever happens in the child,
+/// the check itself always terminates. Single runs get two minutes, batches scale with their
+/// size (the slowest layer does about 2000 runs per second and thread).
+fn worker_time_limit(spec: &WorkSpec) -> std::time::Duration {
+    let per_thread = spec.runs / spec.threads.max(1) as u64;
+    std::time::Duration::from_secs(120 + per_thread / 500)
+}
+
+pub fn spawn_worker(bin: &Path, spec: &WorkSpec) -> ChildEnd {
+    use std::io::Read;
+    use std::process::Stdio;
+    let mut child = match Command::new(bin).arg("worker").arg(serde_json::to_string(spec).unwrap()).stdout(Stdio::piped()).stderr(Stdio::piped()).spawn() {
+        Ok(c) => c,
+        Err(e) => return ChildEnd::Harness(format!("cannot spawn {}: {}", bin.display(), e)),
+    };
+    // drain both pipes on their own threads (a full pipe must never block the child)
+    let mut so = child.stdout.take().unwrap();
+    let mut se = child.stderr.take().unwrap();
+    let t_out = std::thread::spawn(move || {
+        let mut b = Vec::new();
+        let _ = so.read_to_end(&mut b);
+        b
+    });
+    let t_err = std::thread::spawn(move || {
+        let mut b = Vec::new();
+        let _ = se.read_to_end(&mut b);
+        b
+    });
+    let deadline = std::time::Instant::now() + worker_time_limit(spec);
+    let mut timed_out = false;
+    let status = loop {
+        match child.try_wait() {
+            Ok(Some(st)) => break st,
+            Ok(None) => {
+                if std::time::Instant::now() > deadline {
+                    timed_out = true;
+                    let _ = child.kill();
+                    break child.wait().expect("wait for a killed worker");
+                }
+                std::thread::sleep(std::time::Duration::from_millis(20));
+            }
+            Err(e) => return ChildEnd::Harness(format!("cannot wait for the worker: {}", e)),
+        }
+    };
+    let stdout_b = t_out.join().unwrap_or_default();
+    let stderr_b = t_err.join().unwrap_or_default();
+    if timed_out {
+        return ChildEnd::Crashed(format!("killed after {} s without finishing (a library call does not return and the worker's own watchdog did not fire)", worker_time_limit(spec).as_secs()));
+    }
+    let stdout = String::from_utf8_lossy(&stdout_b);
+    if status.success() {
+        match stdout.lines().find_map(|l| l.strip_prefix("RESULT ")) {
+            Some(j) => match serde_json::from_str::<WorkOut>(j) {
+                Ok(w) => ChildEnd::Ok(w),
+                Err(e) => ChildEnd::Harness(format!("worker output does not parse: {}", e)),
+            },
+            None => ChildEnd::Harness("worker printed no RESULT line".into()),
+        }
+    } else if status.code() == Some(2) {
+        ChildEnd::Harness(String::from_utf8_lossy(&stderr_b).lines().last().unwrap_or("").to_string())
+    } else {
+        use std::os::unix::process::ExitStatusExt;
+        let how = match status.signal() {
+            Some(s) => format!("signal {}", s),
+            None => format!("exit status {:?}", status.code()),
+        };
+        ChildEnd::Crashed(how)
     }
 }
 
@@ -467,7 +544,7 @@ pub fn cmd_replay(path: &str) -> i32 {
         let root = self_exe().parent().and_then(|p| p.parent()).and_then(|p| p.parent()).and_then(|p| p.parent()).map(|p| p.to_path_buf()).unwrap_or_else(|| PathBuf::from("/verif"));
         return replay_under_miri(&root, path, &rep);
     }
-    let o = match Command::new(bin_for_runner(&rep.runner)).arg("replay-inproc").arg(path).output() {
+    let o = match output_with_timeout(Command::new(bin_for_runner(&rep.runner)).arg("replay-inproc").arg(path), 180) {
         Ok(o) => o,
         Err(e) => {
             eprintln!("harness error: cannot spawn child: {}", e);
@@ -499,6 +576,10 @@ pub fn cmd_replay(path: &str) -> i32 {
 
 /// child side of minimisation: prints `MINIMISED <replay json>`
 pub fn cmd_minimise_inproc(path: &str) -> i32 {
+    // a candidate trace may make a library call hang (mutated trees): every candidate execution
+    // beats, the watchdog turns a hang into an abort and the parent keeps the unminimised trace
+    start_watchdog(20);
+    heartbeat();
     let rep = match load_replay(path) {
         Ok(r) => r,
         Err(e) => {
@@ -600,7 +681,7 @@ fn tmp_dir(root: &Path) -> PathBuf {
 fn minimise_via_child(root: &Path, rep: &Replay) -> Result<Replay, String> {
     let tmp = tmp_dir(root).join("to-minimise.json");
     std::fs::write(&tmp, serde_json::to_string(rep).unwrap()).map_err(|e| e.to_string())?;
-    let o = Command::new(bin_for_runner(&rep.runner)).arg("minimise-inproc").arg(&tmp).output().map_err(|e| e.to_string())?;
+    let o = output_with_timeout(Command::new(bin_for_runner(&rep.runner)).arg("minimise-inproc").arg(&tmp), 300).map_err(|e| e.to_string())?;
     if o.status.code() == Some(2) {
         return Err(String::from_utf8_lossy(&o.stderr).lines().last().unwrap_or("minimiser failed").to_string());
     }
@@ -617,7 +698,7 @@ fn trace_crashes(root: &Path, rep: &Replay) -> bool {
     if std::fs::write(&tmp, serde_json::to_string(rep).unwrap()).is_err() {
         return false;
     }
-    match Command::new(bin_for_runner(&rep.runner)).arg("replay-inproc").arg(&tmp).output() {
+    match output_with_timeout(Command::new(bin_for_runner(&rep.runner)).arg("replay-inproc").arg(&tmp), 180) {
         Ok(o) => !matches!(o.status.code(), Some(0) | Some(2)),
         Err(_) => false,
     }
@@ -846,7 +927,7 @@ pub fn cmd_check(root: &Path, prop: &str, tier: &str, seed: u64, threads: usize)
                 continue;
             }
             n += 1;
-            let o = Command::new(bin_for_runner(&rep.runner)).arg("replay-inproc").arg(&f).output();
+            let o = output_with_timeout(Command::new(bin_for_runner(&rep.runner)).arg("replay-inproc").arg(&f), 180);
             match o.map(|o| o.status.code()) {
                 Ok(Some(0)) => {}
                 Ok(Some(2)) | Err(_) => {
